@@ -26,6 +26,7 @@ func checkC15(c *Ctx) {
 	c.Decided = "lock discipline of the command cache including its 'callers must hold the lock' helpers; no lost wake-up: every lengthening of the cache and every successful extraction is followed, inside the critical section, by a (non-blocking) ready signal whenever a full batch is present; " +
 		"Get returns a batch only when extraction produced one and otherwise only on context cancellation; extraction skips commands at or below the proposed sequence number of their client (comparison polarity checked), removes exactly the examined prefix and only when the batch is full; " +
 		"Add refuses duplicates; Proposed only raises a client's sequence number."
+	c.Decided += " A ready signal consumed by Get is always followed by an examination of the cache before Get returns or waits again."
 	c.NotDec = "FIFO order of the extracted elements as a functional fact of the extraction loop; liveness under arbitrary goroutine scheduling beyond the no-lost-wake-up rule."
 	c.Expect("C15.1", 6)
 	c.Expect("C15.2", 4)
